@@ -278,3 +278,51 @@ def table_blocks(ctx, st):
                 j += lm + 1; k += le + 1
         st.violation('table-mismatch', 'model and implementation disagree on ' + msg, dict(table=attr, block=blk.hex()), no_input=True)
     st.stats['tables'] = len(TABLES)
+
+
+# ------------------------------------------------------------------------------------------------ encoders (C17 / C19)
+def encoder_corr(ctx, st):
+    """encode_value of every setting class and the eco-mode group encoders: model vs the real classes"""
+    goodwe = load()
+    import goodwe.sensor as S
+    cases, descr = [], []
+    rng = ctx.rng
+
+    def enc_bytes(fn):
+        try: return [0] + list(fn())
+        except Exception as ex: return [1] + enc_exc(ex)      # noqa
+
+    ints = [-70000, -32769, -32768, -129, -128, -1, 0, 1, 127, 128, 255, 256, 32767, 32768, 65534, 65535, 65536, 2 ** 31, 2 ** 32 - 1, 2 ** 32] + [rng.randrange(-70000, 70000) for _ in range(10)]
+    for cls, kind in ((S.Integer, 'KInteger'), (S.IntegerS, 'KIntegerS'), (S.Long, 'KLong'), (S.LongS, 'KLongS')):
+        s = cls('x', 0, 'x')
+        for v in ints:
+            cases.append((f'enc_rbytes (encode_value {kind} (IInt {C.zs(v)}) [])', enc_bytes(lambda: s.encode_value(v)))); descr.append((kind, v)); st.case((kind, v))
+    for cls, kind in ((S.ByteH, 'KByteH'), (S.ByteL, 'KByteL')):
+        s = cls('x', 0, 'x')
+        for v in list(range(-130, 131, 1 if ctx.deep else 13)) + [-128, 127, -129, 128]:
+            reg = bytes([rng.randrange(256), rng.randrange(256)])
+            cases.append((f'enc_rbytes (encode_value {kind} (IInt {C.zs(v)}) {C.zl(reg)})', enc_bytes(lambda: s.encode_value(v, reg)))); descr.append((kind, v)); st.case((kind, v))
+    scaled = [(S.Voltage('x', 0, 'x', None), 'KVoltage', 10), (S.Current('x', 0, 'x', None), 'KCurrent', 10), (S.CurrentS('x', 0, 'x', None), 'KCurrentS', 10),
+              (S.Decimal('x', 0, 10, 'x'), '(KDecimal 10)', 10), (S.Decimal('x', 0, 100, 'x'), '(KDecimal 100)', 100), (S.Decimal('x', 0, 1000, 'x'), '(KDecimal 1000)', 1000)]
+    for s, kind, sc in scaled:
+        ks = [-32769, -32768, -1, 0, 1, 29, 56, 57, 58, 4584, 32767, 32768, 65535, 65536] + [rng.randrange(-33000, 66000) for _ in range(40 if not ctx.deep else 2000)]
+        for k in ks:
+            v = k / sc
+            cases.append((f'enc_rbytes (encode_value {kind} (IFloat (PrimFloat.div (float_of_Z {C.zs(k)}) (float_of_Z {sc}))) [])', enc_bytes(lambda: s.encode_value(v))))
+            descr.append((kind, v)); st.case((kind, k))
+    # eco-mode group encoders
+    for ty in (0, 3, 6, 85, 1):
+        sch = S.Schedule('x', 0, 'x', S.ScheduleType(ty))
+        for p in ([1, 9, 10, 37, 50, 99, 100] if not ctx.deep else range(0, 101)):
+            for soc in ((0, 80, 100) if not ctx.deep else range(0, 101, 5)):
+                cases.append((f'sched_encode_charge {ty} {p} {soc}', list(sch.encode_charge(p, soc)))); descr.append(('charge', ty, p, soc)); st.case(('charge', ty, p, soc))
+            cases.append((f'sched_encode_discharge {ty} {p}', list(sch.encode_discharge(p)))); descr.append(('discharge', ty, p)); st.case(('discharge', ty, p))
+    v1 = S.EcoModeV1('x', 0, 'x')
+    for p in range(0, 101, 1 if ctx.deep else 7):
+        cases.append((f'eco_v1_encode_charge {p}', list(v1.encode_charge(p)))); descr.append(('v1c', p)); st.case(('v1c', p))
+        cases.append((f'eco_v1_encode_discharge {p}', list(v1.encode_discharge(p)))); descr.append(('v1d', p)); st.case(('v1d', p))
+    bad, err = C.eval_cases('sens_e', 'PyFloat Sensors', cases, shard=400, prelude='From Coq Require Import PrimFloat.')
+    if err: st.violation('sensor-eval', f'model evaluation failed: {err[:400]}', dict(error=err), no_input=True)
+    for i in bad[:6]:
+        st.violation('encoder-mismatch', f'encoder of the model and of the implementation disagree on {descr[i]}: implementation {cases[i][1]}',
+                     dict(case=repr(descr[i]), implementation=cases[i][1]), no_input=True)
